@@ -986,7 +986,7 @@ VERIF_MSGS = ("postcondition not satisfied", "precondition not satisfied", "asse
               "invariant not satisfied", "possible arithmetic", "possible division by zero",
               "decreases not satisfied", "possible bit shift", "unreachable", "recommendation not met",
               "loop invariant", "index", "failed", "panic", "termination", "not satisfied", "rlimit",
-              "could not prove", "resource limit", "unable to prove post-condition")
+              "could not prove", "resource limit", "unable to prove post-condition", "may fail to meet its declared type invariant")
 
 
 def classify(res, g):
